@@ -120,6 +120,18 @@ def resume (C : Crypto) (key : List UInt8) (cfg : Config) (rule : Option Rule) (
       .ok { params := p, state := st, master := match st with | some s => s.master | none => [] }
     else .ok { params := p, state := none, master := [] }
 
+/-! ### what a full handshake stores for later resumption (`sendSessionTicket`, and the cache `Put` at the end of
+    `serverHandshake`): version, suite, master secret and client certificates of the connection just established -/
+
+/-- the `vers` field of the stored state, in whichever form the source has it (`viaTicket`: ticket, else cache entry) -/
+def issuedVersion (viaTicket : Bool) (helloVers negotiated : Nat) : Nat :=
+  if viaTicket then (if Generated.C44.ticketStoresNegotiatedVersion then negotiated else helloVers)
+  else (if Generated.C44.cacheStoresNegotiatedVersion then negotiated else helloVers)
+
+def issueState (viaTicket : Bool) (helloVers : Nat) (p : Params) (master : List UInt8) (certs : List (List UInt8)) :
+    SessionState :=
+  { vers := issuedVersion viaTicket helloVers p.vers, suite := p.suite.id, master := master, certs := certs }
+
 /-! ### session-ID cache: `bfe_server.ServerSessionCache` (redis: `SET key value` + `EXPIRE key SessionExpire`, `GET key`)
 
   One store may be shared by several servers; each prepends its own `KeyPrefix`.  Time is a logical clock in
